@@ -1,16 +1,19 @@
 import GolibsVerif.Driver.Util
 import GolibsVerif.Model.C14
+import GolibsVerif.Model.C14Parse
 
 /-!
 Line protocol of C14 (tokens separated by one space; byte strings in hex, `-` = empty):
 
   C14.std.durstr <d>                      time.Duration(d).String()
+  C14.std.parsedur <text>                 time.ParseDuration(text): `err` or the int64
   C14.std.fmtu <n>                        strconv.FormatUint(n, 10)
   C14.std.parseu16 <s>                    strconv.ParseUint(s, 10, 16)
   C14.std.join <host> <port>              net.JoinHostPort
   C14.std.split <s>                       net.SplitHostPort
-  C14.dur <d> <tbl>                       Duration.String, MarshalText→UnmarshalText;
-                                          tbl: text=value,… answers of time.ParseDuration
+  C14.dur <d> <tbl>                       Duration.String, MarshalText→UnmarshalText (on the model
+                                          of time.ParseDuration); tbl: text=value,… answers of the
+                                          real time.ParseDuration, cross-checked
   C14.hp <host> <port>                    HostPort.String, ParseHostPort of it
   C14.php <s>                             ParseHostPort
   C14.prefix <s> <pfx> <addr>             Prefix.UnmarshalText; answers of netip.ParsePrefix(s)
@@ -88,6 +91,11 @@ def stdOp (op : String) (args : List String) : Option String :=
   | "C14.std.durstr", [d] => some <| match parseInt? d with
     | some d => hexEncode (stdString d)
     | none => "bad-op"
+  | "C14.std.parsedur", [s] => some <| match hexDecode s with
+    | some s => (match parseDuration s with
+      | some d => s!"{d}"
+      | none => "err")
+    | none => "bad-op"
   | "C14.std.fmtu", [n] => some <| match n.toNat? with
     | some n => hexEncode (formatUint n)
     | none => "bad-op"
@@ -108,13 +116,21 @@ def stdOp (op : String) (args : List String) : Option String :=
 
 /-! ### Duration -/
 
+/-- `UnmarshalText` runs on the Lean model of `time.ParseDuration`; the table of the case line
+(answers of the real `time.ParseDuration`, computed by the generator from the standard
+library only) is a second witness: an entry for the text that differs from the model's
+answer prints as `PARSE-MODEL-DISAGREES`. -/
 def durOp (d : Int) (t : List (Bytes × String)) : String :=
   match durationMarshalText d with
   | .error p => showPanic p
   | .ok s =>
-    let rt := match durationUnmarshalText (intOracle t) s with
+    let m := durationUnmarshalText parseDuration s
+    let agrees := match lookup t s with
+      | none => true
+      | some _ => intOracle t s == m
+    let rt := if !agrees then "PARSE-MODEL-DISAGREES" else match m with
       | none => "err"
-      | some v => if v = missInt then "ORACLE-MISS" else s!"ok:{v}"
+      | some v => s!"ok:{v}"
     s!"{hexEncode s}/{rt}"
 
 /-! ### HostPort -/
